@@ -1,0 +1,182 @@
+//go:build verif
+
+/*
+ * Verification exports for the MANIFEST code (manifest.go): add-only wrappers that expose
+ * helpOpenOrCreateManifestFile / manifestFile.addChanges / ReplayManifestFile and the protobuf
+ * (un)marshalling of ManifestChangeSet to the external verification harness.
+ * Compiled only with `-tags verif`.
+ */
+
+package badger
+
+import (
+	"errors"
+	"os"
+	"path/filepath"
+	"sort"
+	"strings"
+
+	"google.golang.org/protobuf/proto"
+
+	"github.com/dgraph-io/badger/v4/pb"
+)
+
+// VerifManifestChange mirrors pb.ManifestChange field by field (enums as their int32 numbers).
+type VerifManifestChange struct {
+	Id          uint64
+	Op          int32
+	Level       uint32
+	KeyId       uint64
+	EncAlgo     int32
+	Compression uint32
+}
+
+// VerifTableManifest mirrors TableManifest.
+type VerifTableManifest struct {
+	Id          uint64
+	Level       uint8
+	KeyID       uint64
+	Compression uint32
+}
+
+// VerifManifestState is a canonical (sorted) projection of a Manifest.
+type VerifManifestState struct {
+	Tables    []VerifTableManifest // sorted by Id
+	Levels    [][]uint64           // per level: sorted table ids
+	Creations int
+	Deletions int
+}
+
+func verifManifestState(m *Manifest) VerifManifestState {
+	st := VerifManifestState{Creations: m.Creations, Deletions: m.Deletions}
+	for id, tm := range m.Tables {
+		st.Tables = append(st.Tables, VerifTableManifest{Id: id, Level: tm.Level, KeyID: tm.KeyID,
+			Compression: uint32(tm.Compression)})
+	}
+	sort.Slice(st.Tables, func(i, j int) bool { return st.Tables[i].Id < st.Tables[j].Id })
+	for _, l := range m.Levels {
+		ids := make([]uint64, 0, len(l.Tables))
+		for id := range l.Tables {
+			ids = append(ids, id)
+		}
+		sort.Slice(ids, func(i, j int) bool { return ids[i] < ids[j] })
+		st.Levels = append(st.Levels, ids)
+	}
+	return st
+}
+
+func verifToPb(cs []VerifManifestChange) []*pb.ManifestChange {
+	out := make([]*pb.ManifestChange, 0, len(cs))
+	for _, c := range cs {
+		out = append(out, &pb.ManifestChange{Id: c.Id, Op: pb.ManifestChange_Operation(c.Op), Level: c.Level,
+			KeyId: c.KeyId, EncryptionAlgo: pb.EncryptionAlgo(c.EncAlgo), Compression: c.Compression})
+	}
+	return out
+}
+
+func verifFromPb(cs []*pb.ManifestChange) []VerifManifestChange {
+	out := make([]VerifManifestChange, 0, len(cs))
+	for _, c := range cs {
+		out = append(out, VerifManifestChange{Id: c.Id, Op: int32(c.Op), Level: c.Level, KeyId: c.KeyId,
+			EncAlgo: int32(c.EncryptionAlgo), Compression: c.Compression})
+	}
+	return out
+}
+
+// VerifManifestErrClass names the error class of the MANIFEST code paths ("" = nil).
+func VerifManifestErrClass(err error) string {
+	switch {
+	case err == nil:
+		return ""
+	case errors.Is(err, errBadMagic):
+		return "badmagic"
+	case errors.Is(err, errBadChecksum):
+		return "badchecksum"
+	}
+	s := err.Error()
+	switch {
+	case strings.Contains(s, "manifest has unsupported version"):
+		return "version"
+	case strings.Contains(s, "external magic number doesn't match"):
+		return "extmagic"
+	case strings.Contains(s, "greater than file size"):
+		return "lensize"
+	case strings.Contains(s, "MANIFEST invalid, table"):
+		return "exists"
+	case strings.Contains(s, "invalid manifestChange op"):
+		return "badop"
+	case strings.Contains(s, "proto:"):
+		return "unmarshal"
+	}
+	return "other:" + s
+}
+
+// VerifManifestFile wraps a manifestFile opened by helpOpenOrCreateManifestFile.
+type VerifManifestFile struct {
+	mf  *manifestFile
+	opt Options
+}
+
+// VerifManifestOpen runs helpOpenOrCreateManifestFile(dir, false, extMagic, threshold, opt) and
+// returns the handle plus the Manifest value the function returned (the replayed one).
+func VerifManifestOpen(dir string, extMagic uint16, threshold int) (*VerifManifestFile, VerifManifestState, error) {
+	opt := DefaultOptions(dir).WithLogger(nil)
+	mf, m, err := helpOpenOrCreateManifestFile(dir, false, extMagic, threshold, opt)
+	if err != nil {
+		return nil, VerifManifestState{}, err
+	}
+	return &VerifManifestFile{mf: mf, opt: opt}, verifManifestState(&m), nil
+}
+
+// AddChanges runs manifestFile.addChanges.
+func (v *VerifManifestFile) AddChanges(cs []VerifManifestChange) error {
+	return v.mf.addChanges(verifToPb(cs), v.opt)
+}
+
+// State projects the live in-memory manifest (mf.manifest).
+func (v *VerifManifestFile) State() VerifManifestState {
+	v.mf.appendLock.Lock()
+	defer v.mf.appendLock.Unlock()
+	return verifManifestState(&v.mf.manifest)
+}
+
+// Close runs manifestFile.close.
+func (v *VerifManifestFile) Close() error { return v.mf.close() }
+
+// VerifManifestPath is the MANIFEST path inside dir.
+func VerifManifestPath(dir string) string { return filepath.Join(dir, ManifestFilename) }
+
+// VerifReplayManifest runs ReplayManifestFile on the file at path.
+func VerifReplayManifest(path string, extMagic uint16) (VerifManifestState, int64, error) {
+	fp, err := os.Open(path)
+	if err != nil {
+		return VerifManifestState{}, 0, err
+	}
+	defer fp.Close()
+	opt := DefaultOptions(filepath.Dir(path)).WithLogger(nil)
+	m, off, err := ReplayManifestFile(fp, extMagic, opt)
+	if err != nil {
+		return VerifManifestState{}, off, err
+	}
+	return verifManifestState(&m), off, nil
+}
+
+// VerifMarshalChangeSet runs proto.Marshal on a ManifestChangeSet, as addChanges does.
+func VerifMarshalChangeSet(cs []VerifManifestChange) ([]byte, error) {
+	set := pb.ManifestChangeSet{Changes: verifToPb(cs)}
+	return proto.Marshal(&set)
+}
+
+// VerifUnmarshalChangeSet runs proto.Unmarshal into a ManifestChangeSet, as ReplayManifestFile does.
+func VerifUnmarshalChangeSet(buf []byte) ([]VerifManifestChange, error) {
+	var set pb.ManifestChangeSet
+	if err := proto.Unmarshal(buf, &set); err != nil {
+		return nil, err
+	}
+	return verifFromPb(set.Changes), nil
+}
+
+// VerifManifestConsts returns the rewrite constants of manifest.go.
+func VerifManifestConsts() (threshold, ratio int, version uint16) {
+	return manifestDeletionsRewriteThreshold, manifestDeletionsRatio, badgerMagicVersion
+}
